@@ -70,13 +70,17 @@ def rule_C(ctx):
     bad = []
     total = 0
     for nrow, ncol in ((4, 3), (1, 1), (2, 5)):
-        rs = sorted({0.0, float(nrow)} | {k + 0.0 for k in range(nrow + 1)} | {k + fr for k in range(nrow) for fr in (0.25, 0.5, 0.9)})
-        cs = sorted({0.0, float(ncol)} | {k + 0.0 for k in range(ncol + 1)} | {k + fr for k in range(ncol) for fr in (0.25, 0.75)})
+      for W, H in ((float(ncol), float(nrow)), (ncol - 0.5, nrow - 0.5)):      # extent = whole number of cells / last cell cut by the extent
+        rs = sorted({0.0, H} | {k + 0.0 for k in range(nrow + 1)} | {k + fr for k in range(nrow) for fr in (0.25, 0.5, 0.9)})
+        cs = sorted({0.0, W} | {k + 0.0 for k in range(ncol + 1)} | {k + fr for k in range(ncol) for fr in (0.25, 0.75)})
+        rs = [r for r in rs if r <= H]
+        cs = [c for c in cs if c <= W]
         for r in rs:
-            for c in cs[:: max(1, len(cs) // 6)] + [float(ncol)]:
-                env = {fx[0]: c, fy[0]: (nrow - 1) - r, 'self.ncol': ncol, 'self.nrow': nrow}
+            for c in sorted(set(cs[:: max(1, len(cs) // 6)] + [W])):
+                env = {fx[0]: c, fy[0]: (nrow - 1) - r, 'self.ncol': ncol, 'self.nrow': nrow, 'self.xmin': 0.0, 'self.ymin': 0.0,
+                       'self.xmax': W, 'self.ymax': H, 'self.resolution': [1.0, 1.0], co + '.E': c, co + '.N': r}
                 try:
-                    kind, val = orders.run_block(tail, env, funcs={'floor': math.floor, 'ceil': math.ceil})
+                    kind, val = orders.run_block(tail, env, funcs={'floor': math.floor, 'ceil': math.ceil, 'getX': lambda c=c: c, 'getY': lambda r=r: r})
                 except orders.Unsupported as e:
                     raise shape_error('getCell border arms not interpretable: %s' % e, f.loc())
                 total += 1
@@ -87,8 +91,8 @@ def rule_C(ctx):
                 okr = 0 <= row < nrow and k <= r <= k + 1
                 okc = 0 <= col < ncol and col <= c <= col + 1
                 if not (okr and okc) and len(bad) < 5:
-                    bad.append({'grid': [nrow, ncol], '(y-ymin)/ry': r, '(x-xmin)/rx': c, 'cell (column,row)': [col, row],
-                                'row footprint in units': [k, k + 1], 'column footprint': [col, col + 1]})
+                    bad.append({'grid (rows, columns)': [nrow, ncol], 'extent in cell units (width, height)': [W, H], '(y-ymin)/ry': r, '(x-xmin)/rx': c,
+                                'cell (column,row)': [col, row], 'row footprint in units': [k, k + 1], 'column footprint': [col, col + 1]})
     ctx.check(not bad, 'C19.C', f,
               'every point of the extent (interior, cell borders, outer borders, corners) gets a cell of the grid whose footprint contains it '
               '(%d integrality-class representatives)' % total, witness={'counter-examples': bad}, node=f.node, key='arms')
@@ -243,12 +247,31 @@ def rule_A(ctx):
                       witness={'NaN returns': [[repr(c) for c, _ in o.state.conds] for o in nanret]}, node=f.node, key=name + ':empty')
     # median: same order statistics as documented (odd -> middle, even -> mean of the two middle ones)
     f = ctx.prog.func(UT + '.co_median')
-    t = unparse(f.node)
-    ok = 'tab_sort[int((n - 1) / 2)]' in t and 'int(n / 2)' in t and 'int(n / 2 - 1)' in t and '0.5 * (tab_sort[index1] + tab_sort[index2])' in t
-    if not ok:
-        # tolerate other spellings: integer division forms
-        ok = ('n // 2' in t) and ('0.5' in t or '/ 2' in t)
-    ctx.recognise(ok, 'C19.A', f, 'median: odd count -> middle element, even count -> mean of the two middle elements', witness={}, node=f.node, key='median-index')
+    fb = body_nodocstring(f)
+    fl = [k for k, s_ in enumerate(fb) if isinstance(s_, ast.For)]
+    if not fl:
+        raise shape_error('co_median: loops not found', f.loc())
+    last = fb[fl[-1]]
+    sorted_names = {unparse(c.func.value) for c in ast.walk(last) if isinstance(c, ast.Call) and getattr(c.func, 'attr', None) == 'append'
+                    and isinstance(c.func.value, ast.Name)}
+    cnt = [s_.targets[0].id for s_ in fb if isinstance(s_, ast.Assign) and isinstance(s_.targets[0], ast.Name) and unparse(s_.value).startswith('len(')]
+    if len(sorted_names) != 1 or not cnt:
+        raise shape_error('co_median: sorted list / count of kept values not found', f.loc())
+    sname = sorted_names.pop()
+    tail = fb[fl[-1] + 1:]
+    bad = None
+    for n in range(1, 9):
+        env = {cnt[-1]: n, sname: [10 * k for k in range(n)]}
+        try:
+            kind, val = orders.run_block(tail, env, {})
+        except orders.Unsupported as e:
+            raise shape_error('co_median: selection of the middle element(s) not interpretable: %s' % e, f.loc())
+        want = 10 * ((n - 1) // 2) if n % 2 == 1 else 0.5 * (10 * (n // 2 - 1) + 10 * (n // 2))
+        if kind != 'return' or val != want:
+            bad = {'count of kept values': n, 'sorted values': env[sname], 'returned': val, 'expected': want}
+            break
+    ctx.check(bad is None, 'C19.A', f, 'median: odd count -> middle element, even count -> mean of the two middle elements (counts 1..8 of the sorted kept values)',
+              witness=bad, node=f.node, key='median-index')
 
 
 def rule_N(ctx):
@@ -256,18 +279,37 @@ def rule_N(ctx):
     f = ctx.prog.func(RAS + '.Raster.computeAggregates')
     w = Walker(f, loop_mode='once')
     outs = list(w.run(body_nodocstring(f), State()))
-    stores = [e for o in outs for e in o.state.events if e.kind == 'store' and e.name.endswith('.grid[i]')]
+    import re
+    stores = [e for o in outs for e in o.state.events if e.kind == 'store' and re.search(r'\.grid\[\w+\]$', e.name)]
     nod = [e for e in stores if vr(e.value) in ('NO_DATA_VALUE', 'self.getNoDataValue()', 'self.__noDataValue')]
     val = [e for e in stores if e not in nod]
     okn = bool(nod) and all(any('isnan(' in repr(c) and not repr(c).startswith('not ') for c, _ in e.conds) for e in nod)
     okv = bool(val) and all(any(repr(c).startswith('not ') and 'isnan(' in repr(c) for c, _ in e.conds) for e in val)
     ctx.check(okn and okv, 'C19.N', f, 'a NaN aggregate is stored as the no-data value, any other aggregate as itself',
               witness={'stores': [repr(e)[:100] for e in stores]}, node=f.node, key='nodata')
-    t = unparse(f.node)
-    ctx.recognise("names = afmap.getName().split('#')" in t and 'aggregate = names[1]' in t and "eval(aggregate + '(tarray)')" in t and
-              'afname = names[0]' in t and 'self.collectionValuesGrid[afname][i][j]' in t, 'C19.D', f,
+    evs = [e for o in outs for e in o.state.events]
+    evals = [e for e in evs if e.kind == 'call' and e.name == 'eval' and e.args]
+    seen = set()
+    evals = [e for e in evals if not (id(e.node) in seen or seen.add(id(e.node)))]
+    if len(evals) != 1:
+        raise shape_error('computeAggregates: the aggregate is not applied by one eval(...) call', f.loc())
+    at = vr(evals[0].args[0])
+    import re
+    m_ = re.search(r"'\((\w+)\)'", at)
+    src = [e for e in evs if m_ and e.kind == 'assign' and e.name == m_.group(1) and e.seq < evals[0].seq]
+    mk = re.match(r"^\((.+\.getName\(\)\.split\('#'\))\[1\] Add '\(\w+\)'\)$", at)
+    keyt = mk.group(1) if mk else None
+    cells = set()
+    for e in stores:
+        m2 = re.search(r'\.grid\[(\w+)\]$', e.name)
+        if m2 and re.match(r'^\w+$', vr(e.index)):
+            cells.add((m2.group(1), vr(e.index)))
+    okd = m_ is not None and keyt is not None and bool(src) and len(cells) == 1 and \
+        all(vr(e.value) == 'self.collectionValuesGrid[%s[0]][%s][%s]' % ((keyt,) + tuple(cells)[0]) for e in src)
+    ctx.check(okd, 'C19.D', f,
               'the aggregate applied to cell (i,j) of feature F is the function named after # in the map key, on the values scattered for F in that cell',
-              witness={}, node=f.node, key='dispatch')
+              witness={'evaluated text': at, 'values': sorted({vr(e.value) for e in src}),
+                       'expected values': 'self.collectionValuesGrid[<name before #>][i][j]'}, node=evals[0].node, key='dispatch')
     g = ctx.prog.func(RAS + '.AFMap.getMeasureName')
     tg = unparse(g.node)
     ctx.recognise(tg.count("'#' + aggregate.__name__") >= 3, 'C19.D', g, 'map keys are <feature>#<aggregate function name>',
